@@ -44,4 +44,7 @@ func init() {
 	reg("C20", propMeta{Level: "exploration", QuickRuns: 4000, ThoroughRuns: 200000,
 		Rule: "one run = one generated transform-free program (positive and negated atoms, =, !=, comparisons, builtins, function expressions; recursion groups) with its base facts preloaded into two equal SimpleInMemoryStores; EvalProgramNaive and the semi-naive EvalProgram run under the same or different drawn map-order policies; oracle: equal stores (the reference model is only used to say which side is wrong). Programs rejected by either entry point are vacuous. Non-trivial: both accept and >= 1 derived fact. Distinct = distinct trace hashes.",
 		Assumptions: []string{"programs that only one evaluator accepts are outside the statement"}})
+	reg("C02", propMeta{Level: "exploration", QuickRuns: 4000, ThoroughRuns: 200000,
+		Rule: "as C01 with the generator biased to do-transform rules: most rules are `head :- body |> do fn:group_by(keys), let R = reducer`, with 1-2 body atoms over EDB or lower (possibly recursive) groups, reducers count/sum/min/max/avg/collect_distinct (read as a set), several aggregating rules for one head, aggregating and plain rules mixed; oracle: store == reference model, where the reference folds each aggregating rule over the distinct solutions of that rule's own body only; an empty body yields no fact. Non-trivial: >= 1 fact derived through an aggregating rule. Distinct = distinct trace hashes.",
+		Assumptions: []string{"no wildcards in aggregated bodies (the statement does not settle whether an anonymous column is part of a solution)", "floating point only through fn:avg over small integers (exact)"}})
 }
